@@ -166,6 +166,32 @@ CLAIMED = {
               "batches in four layouts and non-default parameters; analytic-tail, scaling and 2D = 1D oracles on the code."),
         design="6/C12", technique="Lean 4 proof (argmax invariant, scaling invariance, modular range) + Float-model correspondence",
         note=PROOF_NOTE + " The mean-method window selection is transcribed and compared, its 'zero-variance window' property is only exercised (analytic tails)."),
+    "C05": dict(
+        text=("Lean 4 theorems at ℝ over the model of mem.py / mem2.py: for every multiplier vector (hence for whatever Newton "
+              "- converged, out of iterations, line search failed, any linear solver -, scipy or the first guess end with) the "
+              "MEM2 distribution exp(-(ip - min ip))/Z is strictly positive and sums to one against the direction increments, "
+              "and the min-shift changes nothing; MEM after its discrete normalisation is non-negative for every quadruple "
+              "(the sign of the numerator cancels) and sums to one with 2pi/N when numerator and integral are non-zero; the "
+              "numerator is (1-|c1|^2)(1-|Phi2|^2) (zero exactly on the recorded boundary finding); multiplying by e(f) and "
+              "the degree Jacobian and integrating over direction returns e(f). Correspondence: the Float instance of the same "
+              "definitions against numba_mem/_mem, initial_value, mem2_directional_distribution, moment_constraints, "
+              "mem2_jacobian, solve_cholesky and the whole mem2_newton_solver; validity, no-raise, energy round trip, "
+              "batch = single (bitwise) and metadata oracles on estimate_directional_distribution / "
+              "as_frequency_direction_spectrum for all four variants, N in 8..180 and four batch layouts."),
+        design="6/C05", technique="Lean 4 proof at ℝ (for all multipliers / all quadruples) + Float-model correspondence + implementation oracles",
+        note=PROOF_NOTE + " IEEE effects (0/0 on the MEM boundary, overflow) are outside the real-number theorems and are covered by the oracles; the lstsq fallback and scipy's root finder are parameters, not models."),
+    "C06": dict(
+        text=("Lean 4 theorems at ℝ: Newton loop invariant (the carried residual is the constraint function of the carried "
+              "iterate; every accepted line-search step strictly reduces the residual norm), so a result flagged converged has "
+              "four-moment residual < atol and each of a1,b1,a2,b2 is reproduced within atol; any two multiplier vectors that "
+              "meet the stopping rule (Newton, scipy) give moments within 2 atol of each other; every entry of mem2_jacobian "
+              "equals the covariance sum(w T_m T_n) - sum(w T_m) sum(w T_n) under w = D*delta (so the mirrored lower triangle "
+              "is exact and the matrix symmetric) and is the derivative (HasDerivAt) of moment_constraints m with respect to "
+              "multiplier n, the min-shift notwithstanding. Correspondence as C05; fidelity of Newton / scipy / MEM on "
+              "von-Mises mixtures with spread >= 1.5 bins (N in 24,36,72,144), Newton-vs-scipy agreement, rotation by every k "
+              "and mirror equivariance of all four variants, finite-difference Jacobian, on the implementation."),
+        design="6/C06", technique="Lean 4 proof at ℝ (loop invariant, closed-form Jacobian, HasDerivAt) + Float-model correspondence + implementation oracles",
+        note=PROOF_NOTE + " That the solvers do converge on resolved inputs, MEM's discretisation bound (0.05, empirical) and rotation equivariance of whole solver runs are decided by the oracles only."),
 }
 
 NOT_YET = "check not built yet in this session; see DESIGN.md section 9 (build order)"
